@@ -3,6 +3,7 @@ package lib
 import (
 	"bytes"
 	"errors"
+	"fmt"
 	"sort"
 	"sync"
 
@@ -24,6 +25,73 @@ type Pair struct {
 type Store struct {
 	mu sync.Mutex
 	m  map[string]string
+	// Shared: hand out the SAME byte slices for a pair on every read (as a
+	// storage that keeps its data in memory does), each with spare capacity
+	// behind its content. A reader that writes into such a slice - or appends
+	// to it in place - writes into memory that belongs to the storage and to
+	// every other reader: MemoryIntact tells, and so does the race detector.
+	Shared bool
+	shared map[string]*sharedPair
+}
+
+type sharedPair struct {
+	k, v []byte
+	text string // the stored value the slices were made for
+}
+
+const canaryLen = 24
+
+func withCanary(text string) []byte {
+	b := make([]byte, len(text), len(text)+canaryLen)
+	copy(b, text)
+	spare := b[len(text):cap(b)]
+	for i := range spare {
+		spare[i] = 0xA5
+	}
+	return b
+}
+
+// sharedOf returns the shared slices of a stored pair (s.mu held).
+func (s *Store) sharedOf(k, v string) *sharedPair {
+	if s.shared == nil {
+		s.shared = map[string]*sharedPair{}
+	}
+	sp, ok := s.shared[k]
+	if !ok || sp.text != v {
+		sp = &sharedPair{k: withCanary(k), v: withCanary(v), text: v}
+		s.shared[k] = sp
+	}
+	return sp
+}
+
+// MemoryIntact checks every slice that was handed out: its content is still
+// the stored text and the spare capacity behind it is untouched. "" = intact.
+func (s *Store) MemoryIntact() string {
+	s.mu.Lock()
+	defer s.mu.Unlock()
+	for k, sp := range s.shared {
+		want, stored := s.m[k]
+		check := func(what string, b []byte, text string) string {
+			if string(b) != text {
+				return fmt.Sprintf("the %s slice handed out for key %q now reads %q, the storage holds %q", what, k, b, text)
+			}
+			for _, c := range b[len(b):cap(b)] {
+				if c != 0xA5 {
+					return fmt.Sprintf("the spare capacity behind the %s slice of key %q was written to: %q", what, k, b[len(b):cap(b)])
+				}
+			}
+			return ""
+		}
+		if m := check("key", sp.k, k); m != "" {
+			return m
+		}
+		if stored && sp.text == want {
+			if m := check("value", sp.v, want); m != "" {
+				return m
+			}
+		}
+	}
+	return ""
 }
 
 func NewStore(pairs []Pair) *Store {
@@ -73,6 +141,9 @@ func (s *Store) Get(key []byte) ([]byte, error) {
 	if !ok {
 		return nil, nil
 	}
+	if s.Shared {
+		return s.sharedOf(string(key), v).v, nil
+	}
 	return []byte(v), nil
 }
 
@@ -111,12 +182,19 @@ func (s *Store) BatchDelete(keys [][]byte) error {
 func (s *Store) Cursor() (kvql.Cursor, error) {
 	s.mu.Lock()
 	defer s.mu.Unlock()
-	return &storeCursor{pairs: s.pairsLocked()}, nil
+	c := &storeCursor{pairs: s.pairsLocked()}
+	if s.Shared {
+		for _, p := range c.pairs {
+			c.shared = append(c.shared, s.sharedOf(p.K, p.V))
+		}
+	}
+	return c, nil
 }
 
 type storeCursor struct {
-	pairs []Pair
-	pos   int
+	pairs  []Pair
+	shared []*sharedPair // same length as pairs when the store shares its memory
+	pos    int
 }
 
 func (c *storeCursor) Seek(prefix []byte) error {
@@ -132,6 +210,10 @@ func (c *storeCursor) Next() ([]byte, []byte, error) {
 	}
 	p := c.pairs[c.pos]
 	c.pos++
+	if c.shared != nil {
+		sp := c.shared[c.pos-1]
+		return sp.k, sp.v, nil
+	}
 	return []byte(p.K), []byte(p.V), nil
 }
 
